@@ -4,6 +4,11 @@ usage: reseed.py <seed-id> <Cxx> [<Cxx> ...] [--thorough]
 Applies /verif/seeded/<seed-id>/patch.diff to /repo, runs the listed checks, reverts /repo, restores evidence/, and records the
 result under meta.json["revalidation"]."""
 import json, os, subprocess, sys
+import fcntl as _fcntl
+_lockf = open("/dev/shm/mscript-verif-repo.lock", "a+")
+_fcntl.flock(_lockf, _fcntl.LOCK_EX)      # held until this tool exits: /repo is patched in between
+import os as _os
+_os.environ["MSCRIPT_VERIF_LOCK_HELD"] = "1"
 args = [a for a in sys.argv[1:] if not a.startswith("--")]
 tier = "thorough" if "--thorough" in sys.argv else "quick"
 sid, checks = args[0], args[1:]
